@@ -377,3 +377,61 @@ func MontT(a, b, m *big.Int) *big.Int {
 	T := new(big.Int).Add(ab, new(big.Int).Mul(M, m))
 	return T.Rsh(T, 256)
 }
+
+// inv64 returns the inverse of odd c modulo 2^64.
+func inv64(c uint64) uint64 {
+	x := c
+	for i := 0; i < 6; i++ {
+		x *= 2 - c*x
+	}
+	return x
+}
+
+// ResonantWord returns a 64-bit word steered against multiplication by the odd
+// constant c (a reduction constant such as 2^256 mod p): the low half of w*c is
+// within a small distance of 0 or 2^64, or the high half of w*c is about to
+// step, or w is one of the usual extremes.  Sums of such partial products carry
+// where uniformly random words practically never do.
+func (r *Rng) ResonantWord(c uint64) uint64 {
+	ci := inv64(c)
+	switch r.Intn(8) {
+	case 0:
+		return uint64(1+r.Intn(2000)) * ci // w*c mod 2^64 = small
+	case 1, 2:
+		return -uint64(1+r.Intn(2000)) * ci // w*c mod 2^64 = 2^64 - small
+	case 3:
+		return -(r.U64() % c) * ci // w*c mod 2^64 in the last c values below 2^64
+	case 4:
+		// high half about to step: w = ceil(j*2^64/c) or one below
+		j := r.U64() % c
+		hi, _ := bits64Div(j, c)
+		return hi + uint64(r.Intn(3)) - 1
+	case 5:
+		return ^uint64(0) - uint64(r.Intn(3))
+	case 6:
+		return uint64(r.Intn(3))
+	default:
+		return r.U64()
+	}
+}
+
+// bits64Div returns floor(j*2^64 / c) for j < c.
+func bits64Div(j, c uint64) (uint64, uint64) { return bits.Div64(j, 0, c) }
+
+// ResonantWide returns an l-byte big-endian string whose 64-bit words (counted
+// from the least significant end) are drawn from ResonantWord(c) or uniformly.
+func (r *Rng) ResonantWide(l int, c uint64) []byte {
+	out := make([]byte, l)
+	for end := l; end > 0; end -= 8 {
+		var w uint64
+		if r.Chance(2, 3) {
+			w = r.ResonantWord(c)
+		} else {
+			w = r.U64()
+		}
+		for k := 0; k < 8 && end-1-k >= 0; k++ {
+			out[end-1-k] = byte(w >> (8 * uint(k)))
+		}
+	}
+	return out
+}
